@@ -1,16 +1,19 @@
 """C01 - Lexing and parsing are total, and diagnostics are located in the input.
 
-proof  : coq/Props/C01.v  (lex_total, lex_no_crash, lex_typed, lex_located*, pump_total, pump_no_crash,
-         keyword table = documented table) over Model/Lex.v + Model/Pump.v
+proof  : coq/Props/C01.v  (lex_total, lex_no_crash, lex_typed, lex_located, pump_total, pump_no_crash, source_long_ok,
+         parse_total, parse_no_crash for the three entry points, keyword table = documented table) over
+         Model/Lex.v + Model/Pump.v + Model/LexParse.v (+ C02's Model/Parse*.v)
 tie    : T  Gen/Tokens.v (token type constants + keywords map) regenerated from token/token.go
          C  extracted model (build/modelrun_lex: lex, pump) vs the real lexer and the parser's ReadPeek
             (build/implrun lex|pump) on the same byte strings: token streams (type, literal, line, column)
             and pumped metas (token, nest level, leading comments with their flags, empty-line counts)
+         C  extracted composed model (build/modelrun_lexparse: bytes -> lexer -> pump -> parser model) vs build/implrun parse:
+            outcome class and error token (type, literal, line, column, offset) for ParseVCL, ParseSnippetVCL, ParseVCLOrSnippet
 oracle : on the implementation alone (independent of the model): lexing ends with EOF, the EOF token is stable,
          no token has an empty type, every token's (line, column) lies inside the input and the text there starts
          with the token's surface form; the three parser entry points (ParseVCL, ParseSnippetVCL,
          ParseVCLOrSnippet) terminate under a watchdog without panic, and every error is a *ParseError whose
-         token is located in the same sense.  The parser itself is not modelled here (C02's Model/Parse*.v).
+         token is located in the same sense.
 """
 import os
 import re
@@ -64,8 +67,10 @@ def run(ctx):
         "computes the raw-byte position table of the oracle with Go's own []rune(string) decoding)",
         "modelled not verified: Model/Lex.v and Model/Pump.v are hand transcriptions of lexer/lexer.go, lexer/reader.go and "
         "Parser.ReadPeek, tied by the differential run below; bufio.Reader is modelled as the remaining byte list with a 4096-byte Peek window",
-        "the parser (parser/*.go beyond ReadPeek) is NOT modelled by C01: it is covered by the watchdog/oracle run only; "
-        "parse_total / parse_no_crash are imported from C02's Model/Parse*.v by the integrator",
+        "the parser model is C02's (Model/Parse*.v, Gen/TokenTypes.v, Gen/ParserTables.v); C01 composes it with the lexer/pump model "
+        "(Model/LexParse.v) and compares the composition with the three real entry points (outcome class + error token); "
+        "strconv.ParseFloat verdicts are an oracle supplied by the Go side (implrun floats)",
+        "not proved: provenance of the parser model's error token (C01_parse_error_located_partial); compared on every input instead",
         "lexer custom tokens (WithCustomTokens / parser custom parsers) are not modelled (empty map)",
     ]
 
